@@ -140,6 +140,13 @@ def _run_lib(scn):
                     break
                 ind.append(candles[i:i + max(1, k)])
                 i += max(1, k)
+        elif scn.get("reparam"):
+            # built and calculated with another period, then the public `period` is reassigned and the readings are recomputed
+            # (the use Hexital.recalculate documents): the series is the definition with the period it has NOW
+            ind = cls(candles=candles, **dict(kw, period=scn["reparam"]))
+            ind.calculate()
+            ind.period = kw["period"]
+            ind.recalculate()
         else:
             ind = cls(candles=candles, **kw)
             ind.calculate()
@@ -713,6 +720,9 @@ def gen_scn(rng, idx, prop, params):
                 r[0] = base + i * step
             scn["live"]["tf"] = tf
             meta["live"] = "appends+tf"
+    if meta["live"] == "batch" and mode == "field" and kind in ("SMA", "EMA", "RMA", "WMA", "VWMA", "ROC") and "period" in kw and rng.random() < 0.12:
+        scn["reparam"] = rng.choice([q_ for q_ in (2, 3, 4, 7, 10, 14, 20) if q_ != kw["period"]])
+        meta["live"] = "reparam"
     scn.update(kwargs=kw, mode=mode, stream=rows)
     if rng.random() < 0.08 and cm.have_numpy():
         scn["numpy"] = rng.choice([True, "mixed"])   # numpy.float64 prices and volumes (all candles, or every other one)
